@@ -140,11 +140,13 @@ def make_functions():
         def __init__(self, tables):
             super().__init__()
             self.tables = tables
+            self.seen = set()
 
         def output_length(self):
             return 1
 
         def eval(self, c):
+            self.seen.add(tuple(float(x) for x in c))       # where the integrand is really evaluated
             r = 1.0
             for d, t in enumerate(self.tables):
                 r *= t[float(c[d])]
@@ -155,11 +157,13 @@ def make_functions():
             super().__init__()
             self.ks = ks
             self.shifts = shifts if shifts is not None else [0.0] * len(ks)     # (x - shift)^k: keeps the test sensitive far from 0
+            self.seen = set()
 
         def output_length(self):
             return 1
 
         def eval(self, c):
+            self.seen.add(tuple(float(x) for x in c))
             r = 1.0
             for d, k in enumerate(self.ks):
                 r *= (float(c[d]) - self.shifts[d]) ** k
@@ -174,7 +178,7 @@ def scalar(v):
 
 
 # ------------------------------------------------------------------------------------------------ trapezoid case
-def run_trap(ctx, drv, case, grid=None, report=None):
+def run_trap(ctx, drv, case, grid=None, report=None, bufs=None):
     """one 1-D trapezoid case; returns ok.  `grid`: an already used GlobalTrapezoidalGrid object to be re-used for this
     grid (object history); `report`: the case to store in replays (the whole history)"""
     rc = report if report is not None else case
@@ -207,7 +211,17 @@ def run_trap(ctx, drv, case, grid=None, report=None):
     impl = None
     try:
         g = grid if grid is not None else GlobalTrapezoidalGrid([float(a)], [float(b)], boundary=bd, modified_basis=md)
-        g.set_grid([list(ptsf)], [list(lv)])
+        if bufs is not None:
+            # argument aliasing: the caller re-uses and overwrites ITS OWN list objects between the set_grid calls of a history
+            bufs["pts"][:] = ptsf
+            bufs["lv"][:] = lv
+            arg_p, arg_l = bufs["pts"], bufs["lv"]
+        else:
+            arg_p, arg_l = list(ptsf), list(lv)
+        g.set_grid([arg_p], [arg_l])
+        if list(arg_p) != ptsf or list(arg_l) != lv:
+            ok = False
+            ctx.violation("trap-argument-modified", tags, rc, {"points_after": list(arg_p)[:12], "levels_after": list(arg_l)[:12]})
         impl = ([float(x) for x in g.coordinate_array[0]], [float(x) for x in g.weights[0]], [int(x) for x in g.levels[0]])
     except (IndexError, AssertionError, ZeroDivisionError) as e:
         impl = ("err", err_kind(e))
@@ -303,6 +317,34 @@ def run_trap(ctx, drv, case, grid=None, report=None):
         if not close(iv, spec, TOL, vscale, terms):
             ok = False
             ctx.violation("trap-integrate", tags, rc, {"integrate": iv, "pl_integral": float(spec)})
+        # use site: the integrand is evaluated exactly at the returned points
+        if tab.seen != set((float(c),) for c in ic):
+            ok = False
+            ctx.violation("trap-evaluation-points", tags, rc, {"evaluated": sorted(tab.seen)[:12], "returned": ic[:12]})
+        # repeated queries agree and leave the stored grid untouched; returned arrays do not alias the stored ones
+        iv2 = scalar(g.integrate(tab, [max(lv) if lv else 0], [float(a)], [float(b)]))
+        gw = np.array(g.get_weights(), dtype=float)
+        gw_copy = gw.copy()
+        if len(gw):
+            gw[:] = -7.0                                            # the caller overwrites what it was given
+        gw2 = np.array(g.get_weights(), dtype=float)
+        iv3 = scalar(g.integrate(tab, [max(lv) if lv else 0], [float(a)], [float(b)]))
+        cwr = GlobalTrapezoidalGrid.compute_weights(list(ptsf), float(a), float(b), md)
+        cw1 = [float(x) for x in cwr]
+        if len(cwr):
+            cwr[:] = -7.0
+        cw2 = [float(x) for x in GlobalTrapezoidalGrid.compute_weights(list(ptsf), float(a), float(b), md)]
+        after = ([float(x) for x in g.coordinate_array[0]], [float(x) for x in g.weights[0]], [int(x) for x in g.levels[0]])
+        if iv2 != iv or iv3 != iv or list(gw_copy) != list(gw2) or [float(x) for x in gw_copy] != iw or cw1 != cw2 or after != (ic, iw, il):
+            ok = False
+            ctx.violation("trap-repeated-query", tags, rc, {"integrate": [iv, iv2, iv3], "get_weights": [list(gw_copy)[:8], list(gw2)[:8]],
+                                                            "compute_weights": [cw1[:8], cw2[:8]], "stored_before": str((ic, iw, il))[:300], "stored_after": str(after)[:300]})
+        # the other public integrator of the repo (test_Integrator swaps it in) gives the same integral
+        from sparseSpACE.Integrator import IntegratorArbitraryGrid
+        iv4 = scalar(IntegratorArbitraryGrid(g)(tab, g.levelToNumPoints([0]), [float(a)], [float(b)]))
+        if not close(iv4, iv, TOL, vscale, terms):
+            ok = False
+            ctx.violation("trap-integrator-route", tags, rc, {"IntegratorArbitraryGridScalarProduct": iv, "IntegratorArbitraryGrid": iv4})
         mv = parse_frac(drv.ask("integ %d %d %s %s %s %s" % (bd, md, frac_str(a), frac_str(b), fvec(ptsq), fvec(vals))))
         if not close(iv, mv, TOL, vscale, terms):
             corr("integrate", iv, str(mv))
@@ -359,22 +401,27 @@ def run_trap(ctx, drv, case, grid=None, report=None):
 
 
 def run_trap2d(ctx, drv, case, grid=None, report=None):
-    """dim 2: tensor weights and products of linear monomials"""
+    """dim >= 2 (non-cubic boxes, a different grid per dimension): tensor weights in `itertools.product` order, products of
+    linear monomials, both integrators, evaluation points"""
+    import itertools
     import numpy as np
     from sparseSpACE.Grid import GlobalTrapezoidalGrid
+    from sparseSpACE.Integrator import IntegratorArbitraryGrid
     Table, Mono = make_functions()
     rc = report if report is not None else case
     bd, md = bool(case["boundary"]), bool(case["modified"])
     dims = case["dims"]
+    D = len(dims)
     a = [F(d["a"]) for d in dims]
     b = [F(d["b"]) for d in dims]
     ptsf = [[float(F(x)) for x in d["pts"]] for d in dims]
     lv = [list(d["levels"]) for d in dims]
-    tags = {"family": "trapezoid", "boundary": bd, "modified": md, "dim": 2}
+    tags = {"family": "trapezoid", "boundary": bd, "modified": md, "dim": D}
+    af, bf = [float(x) for x in a], [float(x) for x in b]
     ok = True
     try:
-        g = grid if grid is not None else GlobalTrapezoidalGrid([float(x) for x in a], [float(x) for x in b], boundary=bd, modified_basis=md)
-        g.set_grid([list(p) for p in ptsf], lv)
+        g = grid if grid is not None else GlobalTrapezoidalGrid(af, bf, boundary=bd, modified_basis=md)
+        g.set_grid([list(p) for p in ptsf], [list(l) for l in lv])
         pw = g.get_points_and_weights()
         P = [tuple(float(c) for c in p) for p in pw[0]]
         Wt = [float(w) for w in pw[1]]
@@ -382,27 +429,53 @@ def run_trap2d(ctx, drv, case, grid=None, report=None):
         ctx.violation("trap-exception", dict(tags, exc=type(e).__name__), rc, {"raised": repr(e)[:300]})
         return False
     mods = []
-    for d in range(2):
+    for d in range(D):
         m = parse_setgrid(drv.ask("setgrid %d %d %s %s %s %s" % (bd, md, frac_str(a[d]), frac_str(b[d]), fvec([F(x) for x in ptsf[d]]), ivec(lv[d]))))
         if m[0] == "err":
             ctx.corr_break("C09/tensor-model-error", rc, {"model": m})
             return False
         mods.append(m)
-    mp = [(float(x), float(y)) for x in mods[0][0] for y in mods[1][0]]
-    mw = parse_list(drv.ask("tensor %s %s" % (fvec(mods[0][1]), fvec(mods[1][1]))))     # Model `tensor` = get_weights()
-    scale = float((b[0] - a[0]) * (b[1] - a[1]))
-    if P != mp or len(Wt) != len(mw) or any(not close(Wt[k], mw[k], TOL, scale) for k in range(len(mw))):
+    mp = [tuple(float(x) for x in t) for t in itertools.product(*[m[0] for m in mods])]
+    mw = mods[0][1]
+    for d in range(1, D):
+        mw = parse_list(drv.ask("tensor %s %s" % (fvec(mw), fvec(mods[d][1]))))     # Model `tensor` = get_weights(), iterated
+    scale = 1.0
+    for d in range(D):
+        scale *= float(b[d] - a[d])
+    # rounding allowance of the coded 4-point formula of the modified basis (see run_trap), carried through the products
+    canc = 0.0
+    if md:
+        for d in range(D):
+            q = [F(x) for x in ptsf[d]]
+            if len(q) == 4 and q[2] != q[1]:
+                cd = 4e-16 * (float(a[d] * a[d] + b[d] * b[d]) + 2 * abs(float(q[1])) * (abs(float(a[d])) + abs(float(b[d])))) / abs(float(q[2] - q[1]))
+                for e in range(D):
+                    if e != d:
+                        cd *= max([1.0] + [abs(float(w)) for w in mods[e][1]])
+                canc += cd
+    if P != mp or len(Wt) != len(mw) or any(not close(Wt[k], mw[k], TOL, scale) and abs(Wt[k] - float(mw[k])) > canc for k in range(len(mw))):
         ok = False
         ctx.corr_break("C09/tensor-points-weights", rc, {"impl": str(list(zip(P, Wt)))[:300], "model": str(list(zip(mp, [float(x) for x in mw])))[:300]})
-    if bd or (md and min(len(p) for p in ptsf) >= 4):
-        for kx in (0, 1):
-            for ky in (0, 1):
-                iv = scalar(g.integrate(Mono([kx, ky]), [0, 0], [float(x) for x in a], [float(x) for x in b]))
-                ex = moment(a[0], b[0], kx) * moment(a[1], b[1], ky)
-                sc = scale * max(1.0, *[abs(float(x)) for x in a + b]) ** 2
-                if not close(iv, ex, TOL, sc):
+    if len(P) and (bd or (md and min(len(p) for p in ptsf) >= 4)):
+        for ks in itertools.product((0, 1), repeat=D):
+            f = Mono(list(ks), af)                                   # products of (x_d - a_d)^k_d
+            iv = scalar(g.integrate(f, [0] * D, af, bf))
+            ex = F(1)
+            for d in range(D):
+                ex *= moment(F(0), b[d] - a[d], ks[d])
+            sc = scale * max(1.0, *[float(b[d] - a[d]) for d in range(D)]) ** D
+            terms = (sum(abs(w) for w in Wt) + 1e11 * canc * len(Wt)) * sc / scale
+            if not close(iv, ex, TOL, sc, terms):
+                ok = False
+                ctx.violation("trap-linear-exact", dict(tags, degree=sum(ks)), rc, {"integrate": iv, "exact": float(ex), "monomial": list(ks)})
+            if sum(ks) == D:
+                if f.seen != set(P):
                     ok = False
-                    ctx.violation("trap-linear-exact", dict(tags, degree=kx + ky), rc, {"integrate": iv, "exact": float(ex), "monomial": [kx, ky]})
+                    ctx.violation("trap-evaluation-points", tags, rc, {"evaluated": sorted(f.seen)[:8], "returned": P[:8]})
+                iv2 = scalar(IntegratorArbitraryGrid(g)(Mono(list(ks), af), g.levelToNumPoints([0] * D), af, bf))
+                if not close(iv2, iv, TOL, sc, terms):
+                    ok = False
+                    ctx.violation("trap-integrator-route", tags, rc, {"IntegratorArbitraryGridScalarProduct": iv, "IntegratorArbitraryGrid": iv2})
     return ok
 
 
@@ -437,8 +510,9 @@ def family_tol(fam, p, weighted, maxlevel):
     return TOL_HIER
 
 
-def run_family(ctx, case, grid=None, report=None):
+def run_family(ctx, case, grid=None, report=None, bufs=None):
     """families without exact model: oracle only"""
+    import itertools
     import numpy as np
     from sparseSpACE import Grid as G
     Table, Mono = make_functions()
@@ -482,7 +556,16 @@ def run_family(ctx, case, grid=None, report=None):
             g = G.GlobalSimpsonGrid(af, bf, boundary=bd, modified_basis=md)
         else:
             raise ValueError(fam)
-        g.set_grid([list(x) for x in ptsf], [list(x) for x in lv])
+        if bufs is not None and dim == 1:
+            bufs["pts"][:] = ptsf[0]                 # the caller's own list objects, overwritten between the calls of a history
+            bufs["lv"][:] = lv[0]
+            arg_p, arg_l = [bufs["pts"]], [bufs["lv"]]
+        else:
+            arg_p, arg_l = [list(x) for x in ptsf], [list(x) for x in lv]
+        g.set_grid(arg_p, arg_l)
+        if [list(x) for x in arg_p] != ptsf or [list(x) for x in arg_l] != lv:
+            ok = False
+            viol("family-argument-modified", tags, {"points_after": str(arg_p)[:200], "levels_after": str(arg_l)[:200]})
         maxdeg = 1
         if fam == "lagrange" and L >= lagrange_required_level(p):
             maxdeg = p
@@ -513,7 +596,7 @@ def run_family(ctx, case, grid=None, report=None):
         tolh = family_tol(fam, p, weighted, max(levelvec))
         worst = None
         for k in range(maxdeg + 1):
-            monos = [[k]] if dim == 1 else ([[k, 0], [k, 1]] if k <= 1 else [])
+            monos = [[k]] if dim == 1 else ([[k] + list(t) for t in itertools.product((0, 1), repeat=dim - 1)] if k <= 1 else [])
             for ks in monos:
                 far = any(is_far(a[d], b[d]) for d in range(dim))
                 sh = [a[d] if far else F(0) for d in range(dim)]      # exactness for degree <= p is translation invariant
@@ -546,6 +629,29 @@ def run_family(ctx, case, grid=None, report=None):
             if worst:
                 break
         ctx.count("family_%s_exact_to_%d" % (fam, maxdeg))
+        if not worst and fam in ("highorder", "lagrange", "bspline"):
+            # use site + repeated queries: the integrand is evaluated at the returned points (boundary on: all of them), the same
+            # query gives the same answer again after other queries, and no query changes the stored weights / points
+            stored = [[float(x) for x in g.weights[d]] for d in range(dim)], [[float(x) for x in g.coordinate_array[d]] for d in range(dim)]
+            f1 = Mono([1] * dim, [float(a[d]) for d in range(dim)])
+            r1 = scalar(g.integrate(f1, levelvec, af, bf))
+            pts_ret = set(tuple(float(c) for c in pt) for pt in g.getPoints())
+            gw = np.array(g.get_weights(), dtype=float)
+            gw_copy = gw.copy()
+            gw[:] = -7.0
+            r0 = scalar(g.integrate(Mono([0] * dim), levelvec, af, bf))
+            r2 = scalar(g.integrate(Mono([1] * dim, [float(a[d]) for d in range(dim)]), levelvec, af, bf))
+            gw2 = np.array(g.get_weights(), dtype=float)
+            stored2 = [[float(x) for x in g.weights[d]] for d in range(dim)], [[float(x) for x in g.coordinate_array[d]] for d in range(dim)]
+            plist = [tuple(float(c) for c in pt) for pt in g.getPoints()]
+            needed = set(pt for pt, w in zip(plist, gw_copy) if w != 0.0) if fam == "highorder" else pts_ret     # zero-weight points may be skipped
+            if not (needed <= f1.seen <= pts_ret):
+                ok = False
+                viol("family-evaluation-points", tags, {"evaluated": sorted(f1.seen)[:10], "returned": sorted(pts_ret)[:10]})
+            if r1 != r2 or list(gw_copy) != list(gw2) or stored != stored2:
+                ok = False
+                viol("family-repeated-query", tags, {"integrate_first": r1, "integrate_again": r2, "between": r0,
+                                                     "get_weights": [list(gw_copy)[:8], list(gw2)[:8]], "stored_changed": stored != stored2})
         if grid is not None and not worst and dim == 1 and fam in ("highorder", "lagrange", "bspline"):
             # the re-used object against a fresh one on the same grid: weights and the integral of a non-polynomial table function
             if fam == "highorder":
@@ -660,6 +766,8 @@ def gen_family_case(rng, thorough):
                 "do_nnls": int(rng.random() < 0.3), "split_up": int(rng.random() < 0.7),
                 "dims": [{"a": frac_str(dom[0]), "b": frac_str(dom[1]), "pts": [frac_str(x) for x in pts], "levels": lv}]}
     dim = 2 if (rng.random() < 0.12 and fam in ("lagrange", "highorder", "bspline") and not md) else 1
+    if dim == 2 and p <= 3 and rng.random() < 0.3:
+        dim = 3                                   # non-cubic boxes in three dimensions: every dimension draws its own interval and tree
     dims = []
     for d in range(dim):
         high = fam == "bspline" and p >= 7 and not md
@@ -693,6 +801,8 @@ def gen_family_case(rng, thorough):
             dims.append({"a": frac_str(dom[0]), "b": frac_str(dom[1]), "pts": [frac_str(x) for x, _ in pl], "levels": [l for _, l in pl]})
         else:
             n = rng.randint(3, 24 if dim == 1 else 6)
+            if dim == 1 and fam in ("lagrange", "bspline") and not md and rng.random() < 0.2:
+                n = rng.choice([13, 14, 15, 16])          # both sides of `numPoints[d] >= 15` (solve vs QR) in HierarchizationLSG
             dom = pick_domain(rng)
             grade, maxdepth = rng.choice([0.0, 0.3, 0.7]), 9
             if is_far(dom[0], dom[1]) and dim == 1:
@@ -858,22 +968,126 @@ def run_history(ctx, drv, case):
         ctx.violation("family-exception", {"family": fam, "modified": md, "boundary": bd, "exc": type(e).__name__}, case, {"constructor": repr(e)[:200]})
         return False
     ok = True
+    bufs = {"pts": [], "lv": []}
     for k, st in enumerate(case["steps"]):
         ctx.count("history_step_" + st["step"])
         if fam == "trapezoid" and dim == 1:
             d = st["dims"][0]
             sub = dict(d, kind="trap", boundary=int(bd), modified=int(md), weighted=1, wellformed=1)
-            good = run_trap(ctx, drv, sub, grid=g, report=dict(case, failed_step=k))
+            good = run_trap(ctx, drv, sub, grid=g, report=dict(case, failed_step=k), bufs=bufs)
         elif fam == "trapezoid":
             sub = {"kind": "trap2d", "boundary": int(bd), "modified": int(md), "dims": st["dims"]}
             good = run_trap2d(ctx, drv, sub, grid=g, report=dict(case, failed_step=k))
         else:
             sub = {"kind": "family", "family": fam, "p": p, "boundary": int(bd), "modified": int(md), "weighted": int(st["step"] != "dyadic-shape"),
                    "dims": st["dims"], "do_nnls": case.get("do_nnls", 0), "split_up": case.get("split_up", 1)}
-            good = run_family(ctx, sub, grid=g, report=dict(case, failed_step=k))
+            good = run_family(ctx, sub, grid=g, report=dict(case, failed_step=k), bufs=bufs)
         if not good:
             ok = False
             break
+        if k % 2 == 1 and (bd or md) and all(len(d["pts"]) >= 3 for d in st["dims"]):
+            # a rarely used public hook of the Grid interface (a no-op for these families) in the middle of the sequence
+            try:
+                Table, Mono = make_functions()
+                sh = [a] * dim
+                before = scalar(g.integrate(Mono([1] * dim, sh), [0] * dim, [a] * dim, [b] * dim))
+                g.initialize_grid()
+                after = scalar(g.integrate(Mono([1] * dim, sh), [0] * dim, [a] * dim, [b] * dim))
+                if before != after:
+                    ok = False
+                    ctx.violation("toggle-initialize_grid", {"family": fam, "modified": md, "boundary": bd}, dict(case, failed_step=k), {"before": before, "after": after})
+                    break
+            except Exception as e:
+                ok = False
+                ctx.violation("toggle-initialize_grid", {"family": fam, "modified": md, "boundary": bd, "exc": type(e).__name__}, dict(case, failed_step=k), {"raised": repr(e)[:200]})
+                break
+    return ok
+
+
+def make_grid(G, spec, a, b):
+    fam = spec["family"]
+    if fam == "trapezoid":
+        return G.GlobalTrapezoidalGrid([a], [b], boundary=bool(spec["boundary"]), modified_basis=bool(spec["modified"]))
+    if fam == "highorder":
+        return G.GlobalHighOrderGrid([a], [b], boundary=True, do_nnls=bool(spec.get("do_nnls", 0)), split_up=bool(spec.get("split_up", 1)))
+    if fam == "lagrange":
+        return G.GlobalLagrangeGrid([a], [b], boundary=True, p=int(spec["p"]))
+    return G.GlobalBSplineGrid([a], [b], boundary=True, p=int(spec["p"]))
+
+
+def gen_siblings(rng, thorough):
+    """2-3 grid objects of different families / options alive at once on the same interval; they are handed grids with EQUAL keys
+    (same level labels, same size) but different points in an interleaved order; each is re-observed after the others worked"""
+    dom = pick_domain(rng, 0.1)
+    specs = []
+    for _ in range(rng.choice([2, 2, 3])):
+        r = rng.random()
+        if r < 0.55:
+            bd, md = rng.choice([(1, 0), (0, 0), (0, 1)])
+            specs.append({"family": "trapezoid", "p": 0, "boundary": bd, "modified": md})
+        else:
+            fam, p = rng.choice([("highorder", 0), ("lagrange", 1), ("lagrange", 2), ("bspline", 1), ("bspline", 3)])
+            specs.append({"family": fam, "p": p, "boundary": 1, "modified": 0, "do_nnls": int(rng.random() < 0.3), "split_up": int(rng.random() < 0.7)})
+    order = gen_order(rng, rng.randint(4, 10), rng.choice([0.0, 0.5, 0.9]), 8)
+    steps = []
+    for k in range(rng.randint(3, 6)):
+        if rng.random() < 0.25:
+            order = gen_order(rng, rng.randint(4, 10), rng.choice([0.0, 0.5, 0.9]), 8)
+        pts, lv = build_from_order(rng, dom[0], dom[1], order, weighted=rng.random() < 0.8)
+        n = len(pts)
+        steps.append({"object": rng.randrange(len(specs)) if k >= len(specs) else k,
+                      "dims": [{"a": frac_str(dom[0]), "b": frac_str(dom[1]), "pts": [frac_str(x) for x in pts], "levels": lv,
+                                "vals": [frac_str(F(rng.randint(-16, 16), rng.choice([1, 2, 4]))) for _ in range(n)],
+                                "levels2": [rng.randint(0, 9) for _ in range(n)]}]})
+    return {"kind": "siblings", "a": frac_str(dom[0]), "b": frac_str(dom[1]), "objects": specs, "steps": steps}
+
+
+def run_siblings(ctx, drv, case):
+    import numpy as np
+    from sparseSpACE import Grid as G
+    Table, Mono = make_functions()
+    a, b = float(F(case["a"])), float(F(case["b"]))
+    specs = case["objects"]
+    try:
+        objs = [make_grid(G, sp, a, b) for sp in specs]
+    except Exception as e:
+        ctx.violation("family-exception", {"family": "siblings", "exc": type(e).__name__}, case, {"constructor": repr(e)[:200]})
+        return False
+    snap = [None] * len(objs)          # (points, weights, integral of x - a) as observed right after the object's own last step
+
+    def observe(g):
+        w = [float(x) for x in g.weights[0]]
+        c = [float(x) for x in g.coordinate_array[0]]
+        return c, w, scalar(g.integrate(Mono([1], [a]), [0], [a], [b]))
+
+    ok = True
+    for k, st in enumerate(case["steps"]):
+        i = st["object"]
+        sp = specs[i]
+        rc = dict(case, failed_step=k)
+        d = st["dims"][0]
+        if sp["family"] == "trapezoid":
+            sub = dict(d, kind="trap", boundary=int(sp["boundary"]), modified=int(sp["modified"]), weighted=1, wellformed=1)
+            good = run_trap(ctx, drv, sub, grid=objs[i], report=rc)
+        else:
+            sub = {"kind": "family", "family": sp["family"], "p": sp["p"], "boundary": 1, "modified": 0, "weighted": 1, "dims": [d],
+                   "do_nnls": sp.get("do_nnls", 0), "split_up": sp.get("split_up", 1)}
+            good = run_family(ctx, sub, grid=objs[i], report=rc)
+        if not good:
+            return False
+        try:
+            snap[i] = observe(objs[i])
+            for j in range(len(objs)):            # the siblings must still answer what they answered before this object worked
+                if j != i and snap[j] is not None:
+                    now = observe(objs[j])
+                    if now != snap[j]:
+                        ok = False
+                        ctx.violation("sibling-interference", {"family": specs[j]["family"], "other": sp["family"], "modified": bool(specs[j].get("modified"))}, rc,
+                                      {"object": j, "after_object": i, "before": str(snap[j])[:300], "now": str(now)[:300]})
+                        return False
+        except Exception as e:
+            ctx.violation("family-exception", {"family": "siblings", "exc": type(e).__name__}, rc, {"re-observation": repr(e)[:200]})
+            return False
     return ok
 
 
@@ -894,6 +1108,17 @@ def gen_trap2d(rng):
         dims = [d if not is_far(F(d["a"]), F(d["b"])) or all(F(x).denominator & (F(x).denominator - 1) == 0 for x in d["pts"])
                 else case_dim(rng, len(d["pts"]), False, 0.5, 10, dom=(F(d["a"]), F(d["b"]))) for d in dims]
     return {"kind": "trap2d", "boundary": bd, "modified": md, "dims": dims}
+
+
+def gen_trap_nd(rng):
+    """dim 3 (sometimes 2): a different interval and a different number of points in every dimension; with the modified basis
+    3- and 4-point grids in the later dimensions (their weights are built from a[d], b[d])"""
+    bd, md = rng.choice([(1, 0), (0, 0), (0, 1), (0, 1)])
+    D = rng.choice([3, 3, 2])
+    doms = rng.sample(DOMAINS + FAR_DOMAINS[:3], D)
+    sizes = rng.sample([3, 4, 5, 6], D)
+    dims = [case_dim(rng, sizes[d], False, 0.5, 8, dom=doms[d]) for d in range(D)]
+    return {"kind": "trap2d", "boundary": bd, "modified": md, "dims": dims, "nd": D}
 
 
 def deep_graded_cases():
@@ -920,6 +1145,8 @@ def run_case(ctx, drv, case):
         return run_trap2d(ctx, drv, case)
     if k == "history":
         return run_history(ctx, drv, case)
+    if k == "siblings":
+        return run_siblings(ctx, drv, case)
     return run_family(ctx, case)
 
 
@@ -941,17 +1168,20 @@ def run(ctx):
     ctx.assumptions.append("GlobalHighOrderGrid / GlobalLagrangeGrid / GlobalBSplineGrid: no exact Lean model; validated by the oracle at %g" % TOL_HIER)
     ctx.assumptions.append("'enough points' for order p: tree complete to level max(1,p-1) (Lagrange: basis of level l has degree min(l+1,p)) resp. ceil(log2(p+1)) (B-spline: the code's own switch)")
     drv = ctx.driver("drv_c09")
+    import globaltrap_gen, sys
+    globaltrap_gen.run(ctx, drv, sys.modules[__name__])      # translator tie of compute_weights (see globaltrap_gen.py)
     rng = ctx.rng
     n_trap = 2500 if not thorough else 40000
     n_fam = 700 if not thorough else 12000
-    n_2d = 100 if not thorough else 1500
+    n_2d = 160 if not thorough else 2000
     n_hist = 400 if not thorough else 5000
     budget = 95 if not thorough else 540
     for case in deep_graded_cases():
         run_case(ctx, drv, case)
         ctx.count("deep_graded_m%d" % case["deep"])
         ctx.case(case, nontrivial=True)
-    plan = ["trap"] * n_trap + ["family"] * n_fam + ["trap2d"] * n_2d + ["history"] * n_hist
+    n_sib = 200 if not thorough else 2500
+    plan = ["trap"] * n_trap + ["family"] * n_fam + ["trap2d"] * n_2d + ["history"] * n_hist + ["siblings"] * n_sib
     rng.shuffle(plan)
     for idx, kind in enumerate(plan):
         if ctx.time_left(budget) < 0:
@@ -960,16 +1190,26 @@ def run(ctx):
         if kind == "trap":
             case = gen_malformed(rng) if rng.random() < 0.08 else gen_trap_case(rng, thorough)
         elif kind == "trap2d":
-            case = gen_trap2d(rng)
+            case = gen_trap_nd(rng) if rng.random() < 0.35 else gen_trap2d(rng)
         elif kind == "history":
             case = gen_history_equal_size(rng, thorough) if rng.random() < 0.12 else gen_history(rng, thorough)
+        elif kind == "siblings":
+            case = gen_siblings(rng, thorough)
         else:
             case = gen_family_case(rng, thorough)
         try:
             ok = run_case(ctx, drv, case)
-        except Exception as e:   # harness problem: never silently skip
+        except Exception as e:
             import traceback
-            ctx.corr_break("C09/harness-exception", case, traceback.format_exc()[-1500:])
+            tb = traceback.extract_tb(e.__traceback__)
+            if any("/sparseSpACE/" in fr.filename for fr in tb):
+                # raised inside the implementation on a generated input: a violation with a replayable case
+                where = [fr for fr in tb if "/sparseSpACE/" in fr.filename][-1]
+                ctx.violation("impl-exception", {"kind": case.get("kind"), "family": case.get("family", "trapezoid"), "modified": bool(case.get("modified")),
+                                                 "exc": type(e).__name__}, case,
+                              {"raised": repr(e)[:200], "at": "%s:%d %s" % (where.filename.split("/sparseSpACE/")[-1], where.lineno, where.name)})
+            else:                # harness problem: never silently skip
+                ctx.corr_break("C09/harness-exception", case, traceback.format_exc()[-1500:])
             ok = False
         if kind == "trap":
             ctx.count("trap_b%d_m%d" % (case["boundary"], case["modified"]))
@@ -978,7 +1218,10 @@ def run(ctx):
                 ctx.count("malformed_" + case["malformed"])
             nontrivial = len(case["pts"]) >= 4 or bool(case.get("malformed"))
         elif kind == "trap2d":
-            ctx.count("trap2d_shared_shape" if case.get("shared_shape") else "trap2d")
+            ctx.count("trap2d_shared_shape" if case.get("shared_shape") else ("trap_nd_dim%d_noncubic" % case["nd"] if case.get("nd") else "trap2d"))
+            nontrivial = True
+        elif kind == "siblings":
+            ctx.count("siblings_%d_objects" % len(case["objects"]))
             nontrivial = True
         elif kind == "history":
             ctx.count("history_%s_b%d_m%d_dim%d%s" % (case["family"], case["boundary"], case["modified"], case["dim"], "_equal_size" if case.get("equal_size") else ""))
